@@ -136,6 +136,12 @@ struct State {
     counters: BTreeMap<(String, OpKind), u64>,
     log: Vec<FsOp>,
     fired: BTreeMap<String, u64>,
+    /// budget of file operations for the whole run (a program that loops for ever must not
+    /// fill the disk or hang the harness): beyond it every operation fails with EFBIG, beyond
+    /// twice it the operation panics
+    max_ops: Option<u64>,
+    total_ops: u64,
+    overrun: bool,
 }
 
 #[derive(Default)]
@@ -165,6 +171,13 @@ impl FsSim {
     pub fn write_chunks(&self, file: &str, chunks: Vec<usize>) {
         self.st.lock().unwrap().write_chunks.insert(file.to_string(), chunks);
     }
+    pub fn limit_ops(&self, max_ops: u64) {
+        self.st.lock().unwrap().max_ops = Some(max_ops);
+    }
+    /// whether the operation budget was exceeded
+    pub fn overrun(&self) -> bool {
+        self.st.lock().unwrap().overrun
+    }
     pub fn log(&self) -> Vec<FsOp> {
         self.st.lock().unwrap().log.clone()
     }
@@ -185,6 +198,17 @@ impl FsSim {
     pub fn before(&self, path: &std::path::Path, kind: OpKind, requested: usize) -> (Decision, u64, Option<Fault>) {
         let file = base(path);
         let mut st = self.st.lock().unwrap();
+        st.total_ops += 1;
+        if let Some(m) = st.max_ops {
+            if st.total_ops > m {
+                st.overrun = true;
+                if st.total_ops > 2 * m {
+                    drop(st);
+                    panic!("simfs: runaway program (more than {} file operations)", 2 * m);
+                }
+                return (Decision::Fail(io::Error::from_raw_os_error(27)), u64::MAX, None);
+            }
+        }
         let c = st.counters.entry((file.clone(), kind)).or_insert(0);
         let index = *c;
         *c += 1;
